@@ -156,7 +156,9 @@ RefApp(transport, before, seg0, ctx, uaddr) ==
            [] c.proto = "STUN"  -> RefStun(seg, ctx)
            [] c.proto = "DNS"   -> RefDns(seg, ctx)
            [] c.proto = "RPC_UDP" -> RefRpc(seg, 0, ctx, uaddr)
-           [] c.proto = "RPC_TCP" -> RefRpc(before \o seg0, 4, ctx, uaddr)
+           [] c.proto = "RPC_TCP" -> LET st == before \o seg0
+                                         b  == RpcRecordStart(st, 0, Len(before), 6)
+                                     IN RefRpc(SubSeq(st, b + 1, Len(st)), 4, ctx, uaddr)
            [] c.proto = "SMB1" -> IF S1Cmd(seg) = 114 THEN RefSmb1Negotiate(seg) ELSE RefSmb1SessionSetup(seg)
            [] c.proto = "SMB2" -> IF S2Cmd(seg) = 0 THEN RefSmb2Negotiate(seg) ELSE RefSmb2SessionSetup(seg)
            [] OTHER -> << >>
